@@ -4,7 +4,7 @@
    The grouping statement over whole feeds ("exactly one output alert per group, informed stops = the distinct ids of the
    members") is decided on the real results by the engine's specification oracle; proved here: the step that keeps the
    informed stops duplicate-free and order-insensitive as a set, the skip rule, the effect rule, the id matcher on examples. *)
-From GV Require Import Base.Prelude Model.RtTypes Model.RtWire Model.Realtime Proofs.RealtimeProofs Gen.NyctTables Proofs.ElevatorProofs.
+From GV Require Import Base.Prelude Model.RtTypes Model.RtWire Model.Realtime Proofs.RealtimeProofs Gen.NyctTables Proofs.ElevatorProofs Gen.Footprint.
 
 (* adding a member's platform / station id through the duplicate check: no duplicates, and the set grows by exactly that id *)
 Theorem C17_add_stop : forall s l, NoDup (stops_of l) ->
@@ -53,3 +53,7 @@ Print Assumptions C17_elevator_groups.
 Theorem C17_distinct_ids : forall l, NoDup (dedup l) /\ forall y, In y (dedup l) <-> In y l.
 Proof. exact dedup_spec. Qed.
 Print Assumptions C17_distinct_ids.
+
+(* tie to the source: the elevator alert id pattern as it stands in nyctalerts.go now (elev_match implements this language) *)
+Example C17_regex_source : alookup "elevatorAlertIDRegex" regex_sources = Some "([[:alnum:]]{3}?)([SN]?)#EL(.*)".
+Proof. reflexivity. Qed.
